@@ -590,6 +590,24 @@ class AbsInt:
                         self.hooks.on_assign(self, a[0], a[2], st)
                 else:
                     self.assign(st, a[0], ('itv', -INF, INF))
+                    # `T x = {a, b}` / `T x{a, b}` with T an aggregate: each integer member starts with the value of its initialiser
+                    agg = a[2]
+                    while agg.k == 'cast':
+                        agg = agg.a[2]
+                    lib_ = getattr(self, 'lib', None)
+                    if agg.k == 'init' and lib_ is not None and isinstance(agg.a[0], str) and agg.a[1]:
+                        cls_ = agg.a[0].replace('const ', '').strip()
+                        try:
+                            flds = lib_.fields(cls_)
+                        except Exception:
+                            flds = None
+                        has_ctor = bool(flds) and any(len(c_.params) == len(agg.a[1]) for c_ in lib_.fns(cls_ + '::' + cls_.split('::')[-1]))
+                        if flds and len(flds) == len(agg.a[1]) and not has_ctor:
+                            for (n_, t_, _x), arg in zip(flds, agg.a[1]):
+                                it_ = int_type(t_)
+                                if it_:
+                                    self.types[a[0] + '.' + n_] = it_
+                                    self.assign(st, a[0] + '.' + n_, self.lin(arg, st))
                     if self.hooks is not None:
                         self.hooks.on_object_assign(self, a[0], a[2], st)
             else:
